@@ -6,7 +6,7 @@ RULE = ("the harness records T[a, op, b] for all ordered pairs of a boundary dom
         "(script-level and Object.BinaryOp/Equal from Go) and 4 unary operators; TLC evaluates, one state per cell, the laws "
         "(== symmetric, != negation, trichotomy, <= definition, < / > swap) and every cell the documentation determines "
         "(conversion type matrix, small-integer values via Integers/Bitwise, ZeroDivisionError / TypeError, never a panic); "
-        "non-trivial = cell whose operands are of different types or that is an error cell")
+        "non-trivial = cell whose operands are of different types or that is an error cell; runtime errors (caught errors) and the errors they wrap in the value pool; a bool next to float / char is the documented conversion on both sides")
 
 def run(ctx):
     table = ctx.path("table.ndjson")
